@@ -88,6 +88,9 @@ def reg_maps(draw):
     with_file = draw(st.integers(0, 2)) == 0
     items = []
     cur = 0
+    # one multi-word object (reg32.Memory), mostly of power-of-two size at a word-aligned offset that is not a
+    # multiple of its size (the decoder's fast path must not be taken for it), with registers / holes around it
+    mem_after = draw(st.integers(0, n_items - 1)) if draw(st.integers(0, 7)) != 0 else None
     for i in range(n_items):
         gap = draw(st.sampled_from([0, 0, 1, 2, 5]))
         off = cur + 4 * gap
@@ -116,6 +119,14 @@ def reg_maps(draw):
             it["off"] = off
             items.append(it)
             cur = off + 4
+        if i == mem_after:
+            words = draw(st.sampled_from([2, 4, 4, 8, 2, 4, 3, 6]))
+            moff = cur + 4 * draw(st.sampled_from([0, 0, 1, 2]))
+            if words & (words - 1) == 0 and moff % (4 * words) == 0 and draw(st.integers(0, 5)) != 0:
+                moff += 4 * draw(st.integers(1, words - 1))
+            items.append({"name": "mem", "what": "mem", "off": moff, "words": words,
+                          "initial": draw(st.sampled_from([0, 0xFFFFFFFF, 0xFFFFFFFF, None]))})
+            cur = moff + 4 * words
     total_words = cur // 4 + draw(st.integers(0, 3))
     bits = max(4, (4 * total_words - 1).bit_length())
     addr_width = draw(st.sampled_from([bits, bits + 1, bits + 3, 16, 32]))
@@ -132,10 +143,20 @@ def reg_maps(draw):
 # ------------------------------------------------------------------------------ schedules
 def _addr(draw, spec, insts, total_bytes, prefer=None):
     o = draw(st.integers(0, 19))
+    cells = [i for i in insts if i["what"] == "memcell"]
+    others = [i for i in insts if i["what"] != "memcell"] or insts
+    if cells and draw(st.integers(0, 11)) == 0:
+        # the size-aligned window around a multi-word object (where a decoder that only looks at the upper
+        # address bits would place it): registers and holes below / above it
+        size = 4 * cells[0]["mem_words"]
+        lo = cells[0]["mem_off"] // size * size if size & (size - 1) == 0 else max(cells[0]["mem_off"] - size, 0)
+        return (lo + 4 * draw(st.integers(0, 2 * cells[0]["mem_words"] - 1))) % (1 << spec["addr_width"])
     if prefer and o < 8:
         base = draw(st.sampled_from(prefer))["off"]
+    elif cells and draw(st.integers(0, 2)) == 0:
+        base = draw(st.sampled_from(cells))["off"]
     else:
-        base = draw(st.sampled_from(insts))["off"]
+        base = draw(st.sampled_from(others))["off"]
     if o < 15:
         return base
     if o < 17:
@@ -170,7 +191,7 @@ def schedules(draw, spec, max_steps=12):
             else:
                 steps.append({"op": "hw", "set": {name: draw(st.integers(0, (1 << ty[1]) - 1))}})
             continue
-        start = draw(st.sampled_from(["seq", "seq", "seq", "par", "par", "early"]))
+        start = draw(st.sampled_from(["seq", "seq", "seq", "par", "par", "early", "pipe"]))
         gap = draw(st.sampled_from([0, 0, 0, 1, 3]))
         if o <= 6:
             strb = draw(st.sampled_from([15, 15, 15, 1, 2, 4, 8, 3, 6, 12, 5, 9, 7, 14, 11, 13, 0]))
@@ -183,6 +204,22 @@ def schedules(draw, spec, max_steps=12):
             addr = last_w if last_w is not None and draw(st.booleans()) else _addr(draw, spec, insts, total)
             steps.append({"op": "r", "addr": addr, "ar": draw(st.sampled_from([0, 0, 1, 3])),
                           "r": draw(st.sampled_from([-1, -1, 0, 1, 3])), "gap": gap, "start": start})
+    # every schedule: one pipelined pair of writes with AW/W skew - the channel that has accepted write k already
+    # presents write k+1 (other address, data, strobes) while the other channel of write k is still outstanding
+    targets = [i for i in insts if i["what"] in ("memword", "memuword", "memcell", "reg", "output")]
+    if len(targets) >= 2:
+        a = draw(st.sampled_from(targets))
+        b = draw(st.sampled_from([t for t in targets if t is not a]))
+        d = draw(st.integers(2, 4))
+        skew = (0, d) if draw(st.booleans()) else (d, 0)
+        d1 = _data(draw)
+        d2 = (~d1 & 0xFFFFFFFF) if draw(st.booleans()) else _data(draw)
+        pair = [{"op": "w", "addr": a["off"], "data": d1, "strb": draw(st.sampled_from([15, 15, 3, 12, 5])),
+                 "aw": skew[0], "w": skew[1], "b": draw(st.sampled_from([-1, 0, 2])), "gap": 0, "start": "seq"},
+                {"op": "w", "addr": b["off"], "data": d2, "strb": draw(st.sampled_from([15, 15, 10, 6])),
+                 "aw": 0, "w": 0, "b": draw(st.sampled_from([-1, 0])), "gap": 0, "start": "pipe"}]
+        pos = draw(st.integers(0, len(steps)))
+        steps[pos:pos] = pair
     return {"hw_init": hw_init, "steps": steps}
 
 
